@@ -214,6 +214,12 @@ Definition vst_update (s : vstatus) (t : vtype) (k : vkind) : vstatus :=
   | House => mkVSt (st_chamber s) (t :: st_house s)
   | KOther => s
   end.
+Definition vst_clear (s : vstatus) (t : vtype) (k : vkind) : vstatus :=      (* VoteStatus.clear (repair) *)
+  match k with
+  | Chamber => mkVSt (filter (fun x => negb (vt_eqb t x)) (st_chamber s)) (st_house s)
+  | House => mkVSt (st_chamber s) (filter (fun x => negb (vt_eqb t x)) (st_house s))
+  | KOther => s
+  end.
 Definition vst_status (s : vstatus) (t : vtype) (k : vkind) : bool :=
   match k with
   | Chamber => existsb (vt_eqb t) (st_chamber s)
@@ -252,7 +258,12 @@ Record env := mkEnv {
   self : N;                                       (* v.addr *)
   own : list (N * N * vtype * (N * N * vkind));   (* isValidatorFn: (round, index, type) -> SubUsers, Threshold, ValidatorType *)
   certp_ok : bool;                                (* paramsMgr.CertificateParams succeeds *)
-  evid_on : bool                                  (* CurrentYouParams: Version >= YouV5 && EnableBls *)
+  evid_on : bool;                                 (* CurrentYouParams: Version >= YouV5 && EnableBls *)
+  (* which of two listed repairs the tree under test contains; the harness reads
+     both off the implementation by replaying the two witnesses before it
+     generates anything (fixes/C03_*.md) *)
+  fix_latch : bool;   (* processVoteMsg clears a latched quorum that a double voter's removal broke *)
+  fix_stale : bool    (* verifySortition no longer reports a stale invalid credential as verified *)
 }.
 
 Fixpoint own_view (l : list (N * N * vtype * (N * N * vkind))) (r i : N) (t : vtype) : option (N * N * vkind) :=
@@ -488,11 +499,22 @@ Record msg := mkMsg {
   m_cred : cred
 }.
 
-Definition cred_ok (v : voter) (m : msg) : bool :=
+(* the voter's view of verifySortitionFn's answer: accepted, rejected (the
+   sender is reported invalid), or - only with the repair - dropped silently *)
+Inductive cverdict := CvOk | CvBad | CvDrop.
+
+Definition cred_verdict (E : env) (v : voter) (m : msg) : cverdict :=
   match m_cred m with
-  | CredGiven b => b
-  | CredVrf b => server_verify b (m_round m) (m_idx m) (v_srv v)
+  | CredGiven b => if b then CvOk else CvBad
+  | CredVrf b =>
+    if b then CvOk
+    else if server_verify false (m_round m) (m_idx m) (v_srv v)
+         then (if fix_stale E then CvDrop else CvOk)
+         else CvBad
   end.
+
+Definition cred_ok (E : env) (v : voter) (m : msg) : bool :=
+  match cred_verdict E v m with CvOk => true | _ => false end.
 
 (* return value of processVoteMsg: 0 = (nil, false), 1 = (err, true) *)
 Definition ret_ok : N := 0.
@@ -509,8 +531,10 @@ Definition process (E : env) (v : voter) (m : msg) : voter * list event * N :=
     match m_stake m with
     | None => (v, [], ret_bad)
     | Some (threshold, k) =>
-      if negb (cred_ok v m) then (v, [], ret_bad)
-      else
+      match cred_verdict E v m with
+      | CvBad => (v, [], ret_bad)
+      | CvDrop => (v, [], ret_ok)
+      | CvOk =>
         match m_status m with
         | Future | Invalid => (v, [], ret_ok)
         | _ =>
@@ -536,7 +560,19 @@ Definition process (E : env) (v : voter) (m : msg) : voter * list event * N :=
                               (w_votes w2 V.Precommit House (m_hash m))], ret_ok)
               else (v1, [], ret_ok)
             | ADifferent =>
-              let v1 := set_ws v (set_wrapper ws key w1) in
+              let v0 := set_ws v (set_wrapper ws key w1) in
+              (* repair: the double voter's weight has just left the block it voted
+                 for first; forget a latched quorum that no longer holds *)
+              let v1 :=
+                match oldh with
+                | Some h0 =>
+                  if fix_latch E && negb (vt_eqb t V.NextIndex) && key_eqb key (cur_key v)
+                     && negb (over_threshold (match wsta w1 k t with Some s => cnt s h0 | None => 0 end)
+                                             threshold (negb (vt_eqb t V.Certificate)))
+                  then set_over v0 ((h0, vst_clear (over_get v0 h0) t k) :: v_over v0)
+                  else v0
+                | None => v0
+                end in
               match oldh with
               | Some h0 =>
                 if negb (vt_eqb t V.NextIndex) && evid_on E
@@ -547,6 +583,7 @@ Definition process (E : env) (v : voter) (m : msg) : voter * list event * N :=
             | _ => (set_ws v (set_wrapper ws key w1), [], ret_ok)
             end
         end
+      end
     end.
 
 (* ---- histories ------------------------------------------------------------ *)
